@@ -162,6 +162,45 @@ pub struct Oracle {
     pub obs: Obs,
     /// violations flagged since the trace was last updated (shown in replays where they occur)
     pub flag_log: Vec<String>,
+    /// what the application asked for, per request number (never changes once set: not part of the digest)
+    pub wants: Vec<Option<Want>>,
+    /// QoS 0 publishes the application asked for
+    pub wants_q0: Vec<Want>,
+    /// the first CONNECT of the session: every later one must say the same except for Clean Start and a
+    /// broker-assigned client identifier
+    pub first_connect: Option<mr::ConnectPkt>,
+    /// situations this execution reached (bit i = `SITUATIONS[i]`); reported per family so that a family
+    /// that never gets where it is meant to go is visible
+    pub cover: u64,
+    pub witness: Option<usize>,
+}
+
+/// Situations worth knowing a family reached at least once.
+pub const SITUATIONS: [&str; 20] = [
+    "inbound QoS 2 table full (8 identifiers pending)",
+    "broker retransmits a pending inbound QoS 2 publish while the table is full",
+    "eight publishes unresolved at the broker",
+    "eight QoS 2 exchanges waiting for PUBCOMP",
+    "nine or more requests live (publishes + subscribe/unsubscribe)",
+    "outbound packet with a two-byte remaining length written in pieces",
+    "inbound packet with a two-byte remaining length read in pieces",
+    "operation cancelled between the bytes of an inbound fixed header",
+    "keep-alive timeout (PINGREQ unanswered)",
+    "keep-alive timeout while an outbound packet is half written",
+    "outbound packet of more than 65535 bytes accepted in pieces",
+    "SUBACK/UNSUBACK mixing refused and granted filters",
+    "CONNECT of more than 127 bytes",
+    "publish refused because the send window is full",
+    "replay of several packets on a resumed connection",
+    "fresh broker session while requests were in flight",
+    "operation cancelled with a packet half written",
+    "request retransmitted on a third connection",
+    "inbound publish delivered with properties",
+    "transport fault while a packet is half written",
+];
+
+pub fn situation_bit(name: &str) -> u64 {
+    1u64 << SITUATIONS.iter().position(|s| *s == name).unwrap_or_else(|| panic!("machinery: unknown situation {}", name))
 }
 
 /// Observable behaviour of one execution, split into the classes whose relative order is fixed.
@@ -200,6 +239,90 @@ impl Oracle {
             last_connect_len: 0,
             obs: Obs::default(),
             flag_log: Vec::new(),
+            wants: Vec::new(),
+            wants_q0: Vec::new(),
+            first_connect: None,
+            cover: 0,
+            witness: None,
+        }
+    }
+
+    pub fn set_want(&mut self, seq: u8, w: Want) {
+        let i = seq as usize;
+        if self.wants.len() <= i {
+            self.wants.resize(i + 1, None);
+        }
+        self.wants[i] = Some(w);
+    }
+
+    /// C09 inside the scheduled world: the packet on the wire says what the application asked for.
+    fn check_content(&mut self, i: Option<usize>, pkt: &CPacket) {
+        if !self.on("C09") {
+            return;
+        }
+        let describe = |w: &Want| {
+            format!(
+                "topic {:?} payload {} bytes qos {} retain {} properties {:?} filters {:?}",
+                String::from_utf8_lossy(&w.topic),
+                w.payload.len(),
+                w.qos,
+                w.retain,
+                w.props,
+                w.filters.iter().map(|f| (String::from_utf8_lossy(&f.0).to_string(), f.1)).collect::<Vec<_>>()
+            )
+        };
+        let pub_matches = |w: &Want, p: &mr::PublishPkt| {
+            w.topic == p.topic && w.payload == p.payload && w.qos == p.qos && w.retain == p.retain && mr::props_equiv(&w.props, &p.props)
+        };
+        match (i, pkt) {
+            (None, CPacket::Publish(p)) => {
+                if !self.wants_q0.is_empty() && !self.wants_q0.iter().any(|w| pub_matches(w, p)) {
+                    self.flag(
+                        "C09",
+                        "content-differs",
+                        "publish0",
+                        format!("QoS 0 PUBLISH on the wire ({:?}) matches no QoS 0 publish the application made", p),
+                    );
+                }
+            }
+            (Some(i), _) => {
+                let Some(Some(w)) = self.wants.get(i).cloned() else { return };
+                let ok = match pkt {
+                    CPacket::Publish(p) => pub_matches(&w, p),
+                    CPacket::Subscribe { filters, props, .. } => {
+                        props.is_empty() && *filters == w.filters
+                    }
+                    CPacket::Unsubscribe { filters, props, .. } => {
+                        props.is_empty() && *filters == w.filters.iter().map(|f| f.0.clone()).collect::<Vec<_>>()
+                    }
+                    _ => true,
+                };
+                if !ok {
+                    let kname = self.reqs[i].kind.name();
+                    self.flag(
+                        "C09",
+                        "content-differs",
+                        kname,
+                        format!("request {} asked for {}; on the wire: {:?}", i, describe(&w), pkt),
+                    );
+                }
+            }
+            _ => {}
+        }
+    }
+
+    /// Part of an outbound packet has been accepted by the transport of connection `c`, the rest not yet.
+    pub fn half_written(&self, c: usize) -> bool {
+        self.conns.get(c).is_some_and(|m| !m.torn && ((m.cur.is_some() && m.cur_off > 0) || !m.acc.is_empty()))
+    }
+
+    pub fn reach(&mut self, i: usize) {
+        self.cover |= 1u64 << i;
+        // development aid: MCX_WITNESS=<index> turns the first execution reaching that situation into a
+        // finding, so that its trace can be read (never set by the registered commands)
+        static WITNESS: std::sync::OnceLock<Option<usize>> = std::sync::OnceLock::new();
+        if *WITNESS.get_or_init(|| std::env::var("MCX_WITNESS").ok().and_then(|s| s.parse().ok())) == Some(i) {
+            self.witness = Some(i);
         }
     }
 
@@ -407,6 +530,14 @@ impl Oracle {
                     &format!("type{}-{:?}-{}", ty, class, why.replace(' ', "_")),
                     format!("offered packet {} is malformed: {}", mr::hex(buf), why),
                 );
+                if matches!(ty, 4 | 5 | 7) {
+                    self.flag(
+                        "C04",
+                        "I4-ack-malformed",
+                        &format!("type{}-{}", ty, why.replace(' ', "_")),
+                        format!("the acknowledgement {} offered on connection {} is not a legal MQTT 5 packet: {}", mr::hex(buf), c, why),
+                    );
+                }
                 if ty == 1 {
                     self.flag(
                         "C12",
@@ -498,6 +629,39 @@ impl Oracle {
                 }
                 self.conns[c].connect_done = true;
                 self.last_connect_len = raw.len();
+                if raw.len() > 129 {
+                    self.reach(12);
+                }
+                match self.first_connect.clone() {
+                    None => self.first_connect = Some(cp.clone()),
+                    Some(f) => {
+                        let mut diffs: Vec<&str> = Vec::new();
+                        if f.keep_alive != cp.keep_alive {
+                            diffs.push("keep-alive");
+                        }
+                        if f.will != cp.will {
+                            diffs.push("will");
+                        }
+                        if f.user != cp.user {
+                            diffs.push("user-name");
+                        }
+                        if f.pass != cp.pass {
+                            diffs.push("password");
+                        }
+                        if !mr::props_equiv(&f.props, &cp.props) {
+                            diffs.push("properties");
+                        }
+                        if !diffs.is_empty() {
+                            let what = diffs.join("+");
+                            let detail = format!(
+                                "the CONNECT on connection {} differs from the session's first CONNECT in {}: first {:?}, now {:?}",
+                                c, what, f, cp
+                            );
+                            self.flag("C12", "R3-connect-differs-from-first", &what, detail.clone());
+                            self.flag("C09", "connect-differs-from-first", &what, detail);
+                        }
+                    }
+                }
                 // C05 S1 / S2
                 let want_clean = !self.connack_ok_seen;
                 if cp.clean_start != want_clean {
@@ -561,6 +725,10 @@ impl Oracle {
             }
         }
         match pkt {
+            CPacket::Publish(p) if p.qos == 0 => self.check_content(None, pkt),
+            _ => {}
+        }
+        match pkt {
             CPacket::Publish(p) if p.qos > 0 => self.request_packet_started(c, pkt, raw, true),
             CPacket::Subscribe { .. } | CPacket::Unsubscribe { .. } => {
                 self.request_packet_started(c, pkt, raw, false)
@@ -585,6 +753,7 @@ impl Oracle {
         let epoch = self.epoch;
         let kind = self.reqs[i].kind;
         let kname = kind.name();
+        self.check_content(Some(i), pkt);
         let pkt_kind = match pkt {
             CPacket::Publish(p) if p.qos == 1 => ReqKind::Pub1,
             CPacket::Publish(_) => ReqKind::Pub2,
@@ -723,6 +892,9 @@ impl Oracle {
             }
         }
         self.reqs[i].offered = true;
+        if self.reqs.iter().filter(|r| r.live(epoch)).count() >= 9 {
+            self.reach(4);
+        }
         // Q5: acceptance order of PUBLISH packets within a connection
         if is_pub {
             if let Some(last) = self.conns[c].last_pub_seq {
@@ -894,8 +1066,14 @@ impl Oracle {
                     }
                     let replayed = self.reqs[i].call_conn != c;
                     self.conns[c].must_replay.retain(|(s, rel)| !(*s as usize == i && !*rel));
+                    if self.reqs[i].tx.len() >= 3 {
+                        self.reach(17);
+                    }
                     // C06 M1
                     self.conns[c].b_inflight += 1;
+                    if self.conns[c].b_inflight >= 8 {
+                        self.reach(2);
+                    }
                     if replayed {
                         self.conns[c].b_replayed_unacked += 1;
                     }
@@ -1084,6 +1262,10 @@ impl Oracle {
                     }
                     self.conns[c].receive_max = rm;
                     if !*session_present {
+                        let ep = self.epoch;
+                        if self.reqs.iter().any(|r| r.live(ep)) {
+                            self.reach(15);
+                        }
                         self.epoch += 1;
                         self.in_qos2_pending.clear();
                         self.owed_acks.clear();
@@ -1107,6 +1289,9 @@ impl Oracle {
                             .filter(|r| r.live(ep))
                             .map(|r| (r.seq, r.kind == ReqKind::Pub2 && r.pubrec_ok.is_some()))
                             .collect();
+                        if list.len() >= 2 {
+                            self.reach(14);
+                        }
                         self.conns[c].must_replay = list;
                     }
                     // acknowledgements owed from an earlier connection of a *resumed* session may
@@ -1146,6 +1331,10 @@ impl Oracle {
                         } else if self.reqs[i].pubrec_ok.is_none() {
                             self.rec_counter += 1;
                             self.reqs[i].pubrec_ok = Some(self.rec_counter);
+                            let ep = self.epoch;
+                            if self.reqs.iter().filter(|r| r.kind == ReqKind::Pub2 && r.live(ep) && r.pubrec_ok.is_some()).count() >= 8 {
+                                self.reach(3);
+                            }
                         }
                     }
                 }
@@ -1187,6 +1376,9 @@ impl Oracle {
                     .position(|r| r.kind == want && r.pid == Some(*pid) && r.live(epoch))
                 {
                     self.reqs[i].done = true;
+                    if codes.iter().any(|c| *c >= 0x80) && codes.iter().any(|c| *c < 0x80) {
+                        self.reach(11);
+                    }
                     if let Some(code) = codes.iter().find(|c| **c >= 0x80) {
                         self.reqs[i].final_fail = Some(*code);
                         self.expect_reject = Some(*code);
@@ -1228,6 +1420,11 @@ impl Oracle {
                         if !duplicate {
                             self.in_qos2_pending.push(pid);
                             self.expect_deliver.push(msg);
+                            if self.in_qos2_pending.len() >= 8 {
+                                self.reach(0);
+                            }
+                        } else if self.in_qos2_pending.len() >= 8 {
+                            self.reach(1);
                         }
                         self.owed_acks.push(OwedAck {
                             kind: AckKind::PubRec,
@@ -1245,6 +1442,9 @@ impl Oracle {
     /// A message was handed to the application.
     pub fn delivered(&mut self, msg: InMsg) {
         self.delivered += 1;
+        if !msg.props.is_empty() {
+            self.reach(18);
+        }
         self.obs.delivered.push(msg.clone());
         if self.expect_deliver.is_empty() {
             self.flag(
@@ -1311,6 +1511,26 @@ pub fn decode_lenient(buf: &[u8]) -> (Result<(CPacket, usize), Bad>, Option<(mr:
 
 pub fn filter_for(seq: u8) -> String {
     format!("f/{}", seq)
+}
+
+/// The k-th filter of request `seq` (the first one identifies the request).
+pub fn filter_k(seq: u8, k: usize) -> String {
+    if k == 0 {
+        filter_for(seq)
+    } else {
+        format!("f/{}/{}/+", seq, "x".repeat(k * 7))
+    }
+}
+
+/// What the application asked to be sent for one request.
+#[derive(Clone, Debug, PartialEq, Eq)]
+pub struct Want {
+    pub topic: Vec<u8>,
+    pub payload: Vec<u8>,
+    pub qos: u8,
+    pub retain: bool,
+    pub props: Vec<mr::Prop>,
+    pub filters: Vec<(Vec<u8>, u8)>,
 }
 
 fn seq_of_filter(f: &[u8]) -> Option<usize> {
